@@ -235,6 +235,14 @@ def totuple(x):
 
 
 def c13_item(res, item):
+    if item.get("type") == "c13subclass":
+        return c13_number_subclasses(res)
+    if item.get("type") == "c13many":
+        return c13_many_teams(res)
+    if item.get("type") == "c13flags":
+        return c13_interpreter_flags(res)
+    if item.get("type") == "c13shared":
+        return c13_shared_ids(res)
     kind = item["kind"]
     op, a, b, c, label = item["call"]
     call = (op, totuple(a), totuple(b), totuple(c), label)
@@ -302,9 +310,135 @@ def c13_shared_ids(res):
                          dict(type="c13shared", kind=kind, variant=variant))
 
 
+def c13_number_subclasses(res):
+    """ranks / scores whose elements are instances of proper subclasses of int and float (an IntEnum place, a unit-carrying
+    float): they are numbers, the call is well-formed and the result is the one for the plain values"""
+    import enum
+
+    class Place(enum.IntEnum):
+        FIRST = 1
+        SECOND = 2
+        THIRD = 3
+
+    class Points(float):
+        pass
+
+    class Seed(int):
+        pass
+    variants = [("IntEnum", [Place.SECOND, Place.FIRST, Place.THIRD], [2, 1, 3]),
+                ("float subclass", [Points(2.5), Points(0.0), Points(7.25)], [2.5, 0.0, 7.25]),
+                ("int subclass", [Seed(3), Seed(3), Seed(1)], [3, 3, 1]),
+                ("mixed", [Place.FIRST, Points(1.0), 2], [1, 1.0, 2])]
+    for kind in KINDS:
+        for mode in ("ranks", "scores"):
+            for label, vals, plain in variants:
+                m = MODEL_CLS[kind]()
+                mk = lambda: [[m.rating(25.0, 8.0), m.rating(20.0, 4.0)], [m.rating(30.0, 3.0)], [m.rating(22.0, 6.0)]]  # noqa: E731
+                res.count("number_subclass_calls")
+                try:
+                    got = [[(p.mu, p.sigma) for p in t] for t in m.rate(mk(), **{mode: list(vals)})]
+                except Exception as e:  # noqa: BLE001
+                    res.fail("property", "C13: well-formed call rejected with %s: %s rate(%s=%s elements)" % (type(e).__name__, kind, mode, label),
+                             dict(type="c13subclass", kind=kind)); continue
+                want = [[(p.mu, p.sigma) for p in t] for t in m.rate(mk(), **{mode: list(plain)})]
+                if got != want:
+                    res.fail("property", "C13: %s rate(%s=%s elements) differs from the call with the plain numbers" % (kind, mode, label),
+                             dict(type="c13subclass", kind=kind))
+
+
+def c13_many_teams(res):
+    """well-formed calls with several hundred teams (a battle-royale lobby): accepted, finite, and the length checks do not
+    depend on how the interpreter caches small integers"""
+    for kind in KINDS:
+        for n in ((257, 300) if res.tier == "quick" else (256, 257, 258, 300, 400)):
+            m = MODEL_CLS[kind]()
+            for mode in ("ranks", "scores"):
+                teams = [[m.rating(25.0 + (i % 7), 8.0 - (i % 5))] for i in range(n)]
+                vals = [(i * 37) % n for i in range(n)]
+                res.count("many_team_calls")
+                try:
+                    out = m.rate(teams, **{mode: vals})
+                    if len(out) != n or not all(math.isfinite(p.mu) and math.isfinite(p.sigma) for t in out for p in t):
+                        res.fail("property", "C13: %s rate of %d teams returned a malformed or non-finite result" % (kind, n), dict(type="c13many", kind=kind))
+                except Exception as e:  # noqa: BLE001
+                    res.fail("property", "C13: well-formed %s call with %d teams (%s given) rejected with %s: %s" % (kind, n, mode, type(e).__name__, str(e)[:80]),
+                             dict(type="c13many", kind=kind))
+                for bad in (n - 1, n + 1):
+                    try:
+                        m.rate(teams, **{mode: list(range(bad))})
+                        res.fail("property", "C13: %s accepted %d %s for %d teams" % (kind, bad, mode, n), dict(type="c13many", kind=kind))
+                    except ValueError:
+                        pass
+                    except Exception as e:  # noqa: BLE001
+                        res.fail("property", "C13: %s: %d %s for %d teams raised %s, not ValueError" % (kind, bad, mode, n, type(e).__name__), dict(type="c13many", kind=kind))
+
+
+def c13_battery_outcomes(seed):
+    """the systematic battery on every class: outcome class of each call and whether a rating changed (run in this process and
+    in child interpreters started with other flags)"""
+    rng = random.Random(seed)
+    out = []
+    for kind in KINDS:
+        for call in c13_systematic(rng, kind):
+            op, teams_t, ranks_t, scores_t, _ = call
+            registry = []
+            teams, ranks, scores = materialize(teams_t, registry), materialize(ranks_t, registry), materialize(scores_t, registry)
+            model = MODEL_CLS[kind]()
+            before = snapshot_ratings(registry)
+            try:
+                if op == "rate":
+                    model.rate(teams, ranks=ranks, scores=scores)
+                else:
+                    getattr(model, op)(teams)
+                o = "accepted"
+            except Exception as e:  # noqa: BLE001
+                o = type(e).__name__
+            out.append([kind, op, show(teams_t), show(ranks_t), show(scores_t), o, o != "accepted" and snapshot_ratings(registry) != before])
+    return out
+
+
+C13_CHILD = """
+import sys, json
+sys.path.insert(0, %(harness)r)
+import p_api
+print(json.dumps(dict(optimize=sys.flags.optimize, out=p_api.c13_battery_outcomes(%(seed)d))))
+"""
+
+
+def c13_interpreter_flags(res):
+    """the same battery in a child interpreter started with -O / -OO (assert statements and `if __debug__:` blocks removed,
+    docstrings dropped): validation must not live in code the optimiser removes"""
+    here = c13_battery_outcomes(res.seed)
+    for flag in (["-O"] if res.tier == "quick" else ["-O", "-OO"]):
+        env = dict(os.environ, OPENSKILL_REPO=core.REPO)
+        p = subprocess.run([sys.executable, "-B"] + [flag, "-c", C13_CHILD % dict(harness=os.path.dirname(os.path.abspath(__file__)), seed=res.seed)],
+                           stdout=subprocess.PIPE, stderr=subprocess.PIPE, env=env)
+        if p.returncode != 0:
+            res.fail("property", "C13: the library cannot be used under python %s: %s" % (flag, p.stderr.decode()[-300:]), dict(type="c13flags", flag=flag))
+            continue
+        body = json.loads(p.stdout.decode().strip().split("\n")[-1])
+        there = body["out"]
+        res.count("battery_calls_under_%s" % flag.strip("-"), len(there))
+        if body["optimize"] < 1:
+            res.notes.append("child interpreter did not run optimised")
+        if len(here) != len(there):
+            res.fail("correspondence", "C13: battery sizes differ between interpreters", dict(type="c13flags", flag=flag)); continue
+        for a, b in zip(here, there):
+            if a[:5] != b[:5]:
+                res.fail("correspondence", "C13: batteries differ between interpreters", dict(type="c13flags", flag=flag)); break
+            if a[5] != b[5] or b[6]:
+                res.fail("property", "C13: under python %s, %s.%s(%s, ranks=%s, scores=%s) -> %s%s; in the default interpreter -> %s" % (
+                    flag, a[0], a[1], a[2], a[3], a[4], b[5], " after modifying a rating" if b[6] else "", a[5]), dict(type="c13flags", flag=flag))
+                break
+
+
 def c13(res):
     rng = random.Random(res.seed)
     c13_shared_ids(res)
+    if res.shard == 0:
+        c13_number_subclasses(res)
+        c13_many_teams(res)
+        c13_interpreter_flags(res)
     calls = []
     for kind in KINDS:
         if res.shard == 0:
@@ -559,9 +693,15 @@ register("C14", c14, c14_item,
 GRID = [-25.0, -3.0, -1.0, -0.0, 0.0, 0.5, 1.0, 3.0, 8.333333333333334, 25.0, 27.5, 1e-300]
 
 
-def c18_pair(res, kind, a, b, drv_lines, checks):
+NAME_PAIRS = [(None, None), ("ann", None), (None, "bob"), ("ann", "bob"), ("bob", "ann"), ("ann", "ann"), ("", "zed")]
+
+
+def c18_pair(res, kind, a, b, drv_lines, checks, names=None):
     R = RATING_CLS[kind]
-    ra, rb = R(a[0], a[1]), R(b[0], b[1])
+    # names (and the ids) never take part in a comparison: every pair is built with one of seven name combinations
+    na, nb = names if names is not None else NAME_PAIRS[len(checks) // 5 % len(NAME_PAIRS)]
+    ra, rb = R(a[0], a[1], na), R(b[0], b[1], nb)
+    res.count("pairs_named_%s_%s" % ("none" if na is None else "str", "none" if nb is None else "str"))
     for op in ("lt", "le", "gt", "ge", "eq"):
         drv_lines.append("CMP %s %s %s 1 %s %s" % (op, f2h(a[0]), f2h(a[1]), f2h(b[0]), f2h(b[1])))
         checks.append((kind, op, a, b, ra, rb))
@@ -572,7 +712,7 @@ PYOP = {"lt": lambda x, y: x < y, "le": lambda x, y: x <= y, "gt": lambda x, y: 
 
 def c18_eval(res, checks, outs):
     for (kind, op, a, b, ra, rb), o in zip(checks, outs):
-        inp = dict(type="c18", kind=kind, op=op, a=list(a), b=list(b))
+        inp = dict(type="c18", kind=kind, op=op, a=list(a), b=list(b), names=[ra.name, rb.name])
         try:
             got = PYOP[op](ra, rb)
         except Exception as e:  # noqa: BLE001
@@ -612,7 +752,8 @@ def c18_item(res, item):
     res.case(item)
     if item.get("type") == "c18":
         lines, checks = [], []
-        c18_pair(res, item["kind"], tuple(item["a"]), tuple(item["b"]), lines, checks)
+        c18_pair(res, item["kind"], tuple(item["a"]), tuple(item["b"]), lines, checks,
+                 names=tuple(item["names"]) if item.get("names") else None)
         c18_eval(res, checks, Driver().run(lines))
     else:
         for kind in KINDS:
@@ -637,6 +778,13 @@ def c18(res):
                 if res.tier == "quick" and k % 5 != KINDS.index(kind):
                     continue
                 res.case(dict(kind=kind, a=a, b=b))
+                c18_pair(res, kind, a, b, lines, checks)
+        # small integers (every pair, every class, both tiers): values whose Python hashes collide although they differ
+        # (hash(-1.0) == hash(-2.0), hash(1.0) == hash(2.0**61)), equal ordinals, sign changes
+        small = [(m, s_) for m in (-2.0, -1.0, 0.0, 1.0, 2.0, 2.0 ** 61) for s_ in (1.0, 2.0)]
+        for a in small:
+            for b in small:
+                res.case(dict(kind=kind, a=a, b=b, grid="small"))
                 c18_pair(res, kind, a, b, lines, checks)
         c18_foreign(res, kind)
         # ordinal and sorting
@@ -723,6 +871,11 @@ def c19_item(res, item):
     elif item.get("type") == "c13":
         op, a, b, c, label = item["call"]
         c19_malformed(res, (op, totuple(a), totuple(b), totuple(c), label))
+    elif item.get("type") == "c19retuned":
+        c19_retuned(res, item["game"], None, factors=tuple(item["factors"]))
+    elif item.get("type") == "c19special":
+        vals = [float(v[2:]) if isinstance(v, str) and v.startswith("f:") else v for v in item["values"]]
+        c19_special_outcomes(res, None, fixed=(item["mode"], vals, [[tuple(p) for p in t] for t in item["teams"]]))
     else:
         c19_signatures(res)
 
@@ -798,6 +951,81 @@ def c19_two(res, g):
     res.count("two_team_games")
     if A != B:
         res.fail("property", "C19: two-team game: BradleyTerryPart %r differs from BradleyTerryFull %r" % (B[0][0], A[0][0]), dict(type="game", game=a))
+
+
+def c19_retuned(res, g, rng, factors=None):
+    """the public attributes re-assigned in place on all five models (a running system changing its units or tuning
+    beta): the five still predict identically, the two Bradley-Terry and the two Thurstone-Mosteller variants still
+    agree on two-team games, and each agrees with a model constructed with the new parameters"""
+    k1, k2 = factors if factors else (rng.choice([0.25, 0.5, 3.0]), rng.choice([0.5, 2.0, 10.0]))
+    inp = dict(type="c19retuned", game=g, factors=[k1, k2])
+    teams = [[(m * k1, s * k1) for (m, s) in t] for t in g["teams"]]
+    # rate() is not defined for a team of zero variance (nor far outside the numeric range): those games are only predicted
+    ratable = all(any(s_ * s_ > 0 for (_m, s_) in t) for t in teams + g["teams"]) and \
+        all(abs(m_) <= 20 * g["beta"] and 1e-4 * g["beta"] <= s_ <= 10 * g["beta"] for t in g["teams"] for (m_, s_) in t)
+    outs, fresh, two = {}, {}, {}
+    try:
+        for k in KINDS:
+            M = MODEL_CLS[k]
+            m = M(beta=g["beta"], kappa=g["kappa"], tau=g["tau"])
+            ts0 = [[m.rating(mu=a, sigma=b) for (a, b) in t] for t in g["teams"]]
+            m.predict_win(ts0); m.predict_draw(ts0); m.predict_rank(ts0)
+            if ratable:
+                m.rate(ts0)
+            m.beta = g["beta"] * k1; m.kappa = g["kappa"] * k2; m.tau = g["tau"] * k1; m.mu = m.mu * k1; m.sigma = m.sigma * k1
+            ts = [[m.rating(mu=a, sigma=b) for (a, b) in t] for t in teams]
+            outs[k] = (m.predict_win(ts), m.predict_draw(ts), m.predict_rank(ts))
+            f = M(beta=g["beta"] * k1, kappa=g["kappa"] * k2, tau=g["tau"] * k1)
+            tf = [[f.rating(mu=a, sigma=b) for (a, b) in t] for t in teams]
+            fresh[k] = (f.predict_win(tf), f.predict_draw(tf), f.predict_rank(tf))
+            pair = [[m.rating(mu=a, sigma=b) for (a, b) in t] for t in teams[:2]]
+            pairf = [[f.rating(mu=a, sigma=b) for (a, b) in t] for t in teams[:2]]
+            two[k] = ([[(p.mu, p.sigma) for p in t] for t in m.rate(pair, ranks=[1, 0])],
+                      [[(p.mu, p.sigma) for p in t] for t in f.rate(pairf, ranks=[1, 0])]) if ratable else (None, None)
+    except Exception as e:  # noqa: BLE001
+        res.fail("property", "C19: a valid call raised %s after the model's public attributes were re-assigned" % type(e).__name__, inp); return
+    res.count("retuned_in_place_cross_class")
+    bad = [k for k in KINDS if outs[k] != outs["PL"]]
+    if bad:
+        res.fail("property", "C19: after re-assigning beta/kappa/tau in place the predictions of %s differ from PlackettLuce's for identical values and parameters" % bad, inp); return
+    bad = [k for k in KINDS if outs[k] != fresh[k]]
+    if bad:
+        res.fail("property", "C19: %s re-tuned in place predicts differently from the same class constructed with those parameters" % bad, inp); return
+    bad = [k for k in KINDS if two[k][0] != two[k][1]]
+    if bad:
+        res.fail("property", "C19: %s re-tuned in place rates a two-team game differently from the same class constructed with those parameters" % bad, inp); return
+    if two["BTF"][0] != two["BTP"][0]:
+        res.fail("property", "C19: two-team game after re-tuning in place: BradleyTerryPart differs from BradleyTerryFull", inp)
+
+
+SPECIAL_OUTCOMES = [float("inf"), float("-inf"), 10 ** 400, -10 ** 400, 1e308, -1e308, 5e-324, True, False, 0, -0.0, 2 ** 53 + 1,
+                    float(2 ** 53), 1, 2, 2.5, -3]
+
+
+def c19_special_outcomes(res, rng, fixed=None):
+    """valid but unusual rank / score values (infinities for did-not-finish, ints beyond the float range, bools, denormals):
+    every class must treat the call the same way (same exception class or all accepted with finite results)"""
+    if fixed:
+        mode, vals, prior = fixed
+    else:
+        n = rng.randint(2, 5)
+        vals = [rng.choice(SPECIAL_OUTCOMES) for _ in range(n)]
+        mode = rng.choice(["ranks", "scores"])
+        prior = [[(rng.gauss(25, 5), rng.uniform(2, 9)) for _ in range(rng.randint(1, 2))] for _ in range(n)]
+    inp = dict(type="c19special", mode=mode, values=[("f:" + repr(v)) if isinstance(v, float) else v for v in vals], teams=prior)
+    outs = {}
+    for k in KINDS:
+        m = MODEL_CLS[k]()
+        ts = [[m.rating(mu=a, sigma=b) for (a, b) in t] for t in prior]
+        try:
+            r = m.rate(ts, **{mode: list(vals)})
+            outs[k] = "accepted" if all(math.isfinite(p.mu) and math.isfinite(p.sigma) for t in r for p in t) else "non-finite"
+        except Exception as e:  # noqa: BLE001
+            outs[k] = type(e).__name__
+    res.count("special_outcome_calls")
+    res.count("special_outcome_" + outs["PL"])
+    if len(set(outs.values())) != 1:
+        res.fail("property", "C19: rate(%s=%s) is not treated alike by the five models: %r" % (mode, [repr(v)[:24] for v in vals], outs), inp)
 
 
 def c19_rating_rules(res, rng):
@@ -889,10 +1117,14 @@ def c19(res):
 def c19_body(res, rng):
     c19_signatures(res)
     c19_rating_rules(res, rng)
-    for _ in range(size(res, 400, 3000)):
+    for i in range(size(res, 400, 3000)):
         g = p_pred.pred_game(rng, kind="PL")
         res.case(g); describe(res, g)
         c19_pred(res, g)
+        if i % 4 == 0:
+            c19_retuned(res, g, rng)
+    for _ in range(size(res, 300, 2000)):
+        c19_special_outcomes(res, rng)
     for _ in range(size(res, 600, 4000)):
         kind = "PL"
         call = gen_call(rng, kind)
